@@ -155,7 +155,7 @@ def gen_args(rng, positions, xenv, mode):
     wrong = rng.randrange(len(positions)) if mode == 'near' else -1
     for j, a in enumerate(positions):
         if mode == 'random' and rng.random() < 0.6:
-            vals.append(rng.choice(G.SCALARS + G.CONTAINERS))
+            vals.append(deiter(rng.choice(G.SCALARS + G.CONTAINERS)))
             continue
         if mode == 'mixed':
             chosen.clear()
@@ -166,8 +166,20 @@ def gen_args(rng, positions, xenv, mode):
             v = w if w is not None else v
         if v is None or (v[0] == 'iter'):
             v = rng.choice(G.SCALARS)
-        vals.append(v)
+        vals.append(deiter(v))
     return vals
+
+
+def deiter(v):
+    """one-shot iterators are consumed by the first traversal (K1 is C04's matter): use lists here"""
+    k = v[0]
+    if k == 'iter':
+        return ['list', [deiter(x) for x in v[1]]]
+    if k in ('list', 'tuple', 'set', 'frozenset', 'deque', 'keys', 'values'):
+        return [k, [deiter(x) for x in v[1]]]
+    if k in ('dict', 'defaultdict', 'ordereddict', 'items'):
+        return [k, [[deiter(a), deiter(b)] for a, b in v[1]]]
+    return v
 
 
 def gen_sig(rng, tvs, nmax=3, ret_none=0.4):
@@ -340,6 +352,8 @@ def evaluate(ck, cases):
 
 def judge_step(I, M, S, mm):
     """the property on the implementation, for one step"""
+    if I == 9 or M == 9:
+        return None        # the addressed instance does not exist on one side: a correspondence matter
     if S == 1 and I != 0:
         return f'a call whose values are consistent (and conform) was rejected with {OUT.get(I, I)}'
     if S == 2 and I == 0:
